@@ -185,9 +185,24 @@ OPS = {
 OP_NAMES = sorted(OPS)
 
 
+def _plain_reference(rows, rows_between):
+    """What a deferred read must deliver: each of its two runs as if it had a freshly loaded CID of its own."""
+    main = _read(cidlib.load_cid(CID_ROWS), rows)
+    return {"items": main["items"], "ended": main["ended"], "between": _read(cidlib.load_cid(CID_ROWS), rows_between)}
+
+
+REFERENCES = {
+    "deferred-read-dup": lambda: _plain_reference(DUP, CLEAN),
+    "deferred-read-three": lambda: _plain_reference(THREE, OTHER_GROUP),
+}
+
+
 def _fresh_outcomes():
     outcomes = {}
     for name in OP_NAMES:
+        if name in REFERENCES:
+            outcomes[name] = REFERENCES[name]()
+            continue
         first = OPS[name](cidlib.load_cid(CID_ROWS), [])
         second = OPS[name](cidlib.load_cid(CID_ROWS), [])
         if first != second:
